@@ -35,6 +35,9 @@ func runC05(p *core.Program, r *core.Report) {
 	universeWriteScan(p, r, "R5", nil)
 	c05R6(p, r, pl)
 	c05R7(p, r)
+	// R8: "independent of what else is generated": which packages count as local does not depend on the order of the
+	// entrypoints (C04.R2: the root-module and direct-package sets are complete before the first package is registered)
+	chainRules(p, r, "R8", "C04", []string{"C04.R2"}, "the sets that decide what is local are complete before any package is registered")
 }
 
 // genLoop finds the loop over the variadic generators parameter in the per-package function.
